@@ -1,4 +1,4 @@
-add("C09", "checks/c09_isolation.c", ["default-asan", "default-plain", "c89-plain"], ["default-asan", "default-plain", "heap-asan", "c89-plain"],
+add("C09", "checks/c09_isolation.c", ["default-asan", "default-plain", "c89-plain", "noinfo-plain", "heap-plain"], ["default-asan", "default-plain", "heap-asan", "c89-plain", "noinfo-plain", "heap-plain"],
     "cases = (history A1..An, n = 1..6, then message(s) B): A drawn from 22 unit kinds incl. failing handlers, failure after partial output, "
     "own errors, streamed blocks left unfinished or over-long, undefined/relative/incomplete headers, syntax errors, surplus/missing "
     "parameters, compound paths, optionally followed by pending bytes + an overrunning chunk and/or a zero-length flush; B from the same "
